@@ -133,7 +133,8 @@ theorem wanted_clear {dst : Replica} {n : Node} {o : Option Node} (h : wanted d 
   · rename_i hany
     intro t ht e1 e2
     apply hany
-    exact List.any_eq_true.mpr ⟨t, ht, by simp [e1, e2]⟩
+    rw [Bool.and_eq_true]
+    exact ⟨List.any_eq_true.mpr ⟨t, ht, by simp [e1]⟩, List.any_eq_true.mpr ⟨t, ht, by simp [e1, e2]⟩⟩
 
 include hI in
 theorem syncDay_noZombieR (rights : Rights) {dst : Replica} (src : Replica) (h : NoZombieR dst) (room ent day : Nat) :
